@@ -407,9 +407,14 @@ class Run:
             for j, e in enumerate(r["ev"]):
                 m["ev"].append({"op": e.get("op", ""), "outs": [recs_by_tag[t][i]["ev"][j]["out"] for t in tags]})
             merged.append(m)
+        self.equiv_merged(merged, base, label, describe=describe, timeout=timeout)
+
+    def equiv_merged(self, merged, base, label, describe=None, timeout=900):
+        """merged: product records {id, tags, ev: [{op, outs: [out per copy]}]}; base: the record blamed in a replay file (same order)"""
         wd = os.path.join(self.work, label)
         verdicts, stats = validate("TraceEquiv", merged, wd, cost=lambda m: 1 + sum(len(e["outs"][0]["v"]) for e in m["ev"]) / 50.0, timeout=timeout, label=label)
-        stats["build"] = "+".join(tags)
+        alltags = sorted({t for m in merged for t in m["tags"]})
+        stats["build"] = "+".join(alltags) if len(alltags) <= 6 else "%d copies" % len(alltags)
         self.tv.append(stats)
         nbad = 0
         for i, r in enumerate(base):
@@ -419,8 +424,8 @@ class Run:
                 d = dict(describe(r, v) if describe else {})
                 d["equiv"] = "%s/%s" % (v[2][0], v[3][0])
                 self.violations.append({"record": r, "position": v[1], "expected": v[2], "observed": v[3], "build": v[3][0],
-                                        "trace_module": "TraceEquiv", "desc": d, "builds": tags})
-        log("[equiv %s %s] %d histories, %d events, %d rejected, %.1fs" % (label, "+".join(tags), stats["histories"], stats["events"], nbad, stats["wall_s"]))
+                                        "trace_module": "TraceEquiv", "desc": d, "builds": merged[i]["tags"]})
+        log("[equiv %s %s] %d histories, %d events, %d rejected, %.1fs" % (label, stats["build"], stats["histories"], stats["events"], nbad, stats["wall_s"]))
 
     def sample(self, s):
         if len(self.samples) < 12:
@@ -473,6 +478,8 @@ class Run:
             seen.add(key)
             print("VIOLATION property=%s replay=%s" % (self.pid, path))
             e = rec["ev"][v["position"] - 1] if 0 < v["position"] <= len(rec["ev"]) else {}
+            if "op" not in e and "fn" in e:
+                e = dict(e, op="%s.%s" % (e["fn"], e.get("f", "")))
             log("  history %s (%s) event %d %s: expected %s observed %s" % (rec.get("id"), {k: rec[k] for k in rec if k not in ("ev", "id") and not isinstance(rec[k], list)},
                                                                            v["position"], e.get("op"), _short(v["expected"]), _short(v["observed"])))
         self.write_evidence(len(new), len(self.violations) - len(new))
